@@ -108,6 +108,7 @@ type End struct {
 	RecvWindow  int
 	writerWake  chan struct{}
 	writersWait int
+	deliveries  int
 
 	Latency time.Duration
 	Seg     SegMode
@@ -554,7 +555,14 @@ func (n *Network) nextDue() time.Time {
 func (c *End) deliver(ready int) {
 	run := c.e.Tape.Run
 	n := ready
-	switch c.Seg {
+	c.deliveries++
+	seg := c.Seg
+	if c.deliveries > 4000 && (seg == SegByte || seg == SegSmall) {
+		// fine-grained segmentation has made its point by now: do not spend the
+		// run's step budget on delivering tens of kilobytes one byte at a time
+		seg = SegRandom
+	}
+	switch seg {
 	case SegRandom:
 		n = 1 + run.Choose("seg", ready)
 	case SegByte:
